@@ -216,6 +216,7 @@ func scanDir(dir string, res *result) {
 		dict = append(dict, w)
 	}
 	sort.Strings(dict)
+	full := dict
 	if len(dict) > 64 {
 		dict = dict[:64]
 	}
@@ -232,7 +233,7 @@ func scanDir(dir string, res *result) {
 	}
 	if dynamicReader {
 		// names passed to a wrapper: every UPPER_CASE-looking literal of the related declarations
-		for _, w := range dict {
+		for _, w := range full {
 			if looksLikeEnvName(w) {
 				vars[w] = true
 			}
